@@ -18,6 +18,11 @@ def _one_scanner(job):
         res['detail'] = (b.get('flex_stderr') or '') + (b.get('cc_output') or '')
         _rm(b)
         return res
+    if 'dangerous trailing context' in b.get('flex_stderr', ''):
+        # the property excludes these rule sets (documented limitation, flex warns)
+        res['build'] = 'dangerous_tc'
+        _rm(b)
+        return res
     cfg.reject_machinery = bool(b['flags'].get('reject'))
     for k in range(ncases):
         c = casegen(rng, rs, cfg)
